@@ -249,8 +249,10 @@ def check_flows(ctx, dct, wr, pr, rp, num=2):
                 g = cfg_of(tr, subst_env=False)
                 sets = [n for n in ast.walk(fl[0]) if isinstance(n, ast.Assign) and norm.is_name(n.targets[0], nm) and norm.is_name(n.value, kn)]
                 okeq = bool(sets) and all(norm.entails(g.facts_at(n), norm.mk_cmp("==", fnv, f"{segn}.scaling_func")) for n in sets)
-                raises = [n for n in ast.walk(lp) if isinstance(n, ast.If) and norm.nnf(n.test) == ("cmp", "is", nm, "None") and any(isinstance(x, ast.Raise) for x in n.body)]
-                okc = okc or (okeq and len(raises) == 1 and g.dominates(raises[0], ys[0]))
+                # the row is reached only through such an assignment: every other way (no name found) ends in the refusal — whether that is
+                # written as `if name is None: raise` after the scan or as the scan's `else: raise`
+                noname = g.escapes(lp, {g.node_of(n).id for n in sets}, {g.node_of(ys[0]).id}) if sets else 0
+                okc = okc or (okeq and noname is None)
         ctx.ob(5, "K2", "the scaling law is written by the name under which the segment's function is registered; a function without a name is refused (raise)", okc, tr, ys[0],
                construct="reverse lookup of cpu_scaling", detail=f"cpu_scaling={norm.U(cs) if cs is not None else None}")
     # reader side of the numbering
